@@ -461,6 +461,22 @@ def mon_errors(tr):
     return out
 
 
+def next_inbound_ack(tr, i):
+    """the first PUBACK or PUBREC the client writes after operation i and before it returns another message"""
+    for op, lines in tr[i + 1:]:
+        if op.split()[:1] in (["adopt"], ["init"], ["vinit"]):
+            return None
+        for l in lines:
+            if l.startswith(("rs msg ", "rs big ")):
+                return None
+            if l.startswith("ev w "):
+                fr, _, _ = mq.frames(unhex(l.split()[3]))
+                for pk in fr:
+                    if len(pk) == 4 and pk[0] in (0x40, 0x50):
+                        return ("puback" if pk[0] == 0x40 else "pubrec", (pk[2] << 8) | pk[3])
+    return None
+
+
 def mon_inbound(tr):
     """C04/C07: acknowledgements only after ownership was taken, with the right
     identifier; exactly-once messages returned once per cycle; PUBREL answered."""
@@ -512,7 +528,7 @@ def mon_inbound(tr):
                         continue
                     if d["name"] == "publish" and "topic" in d and d["qos"] < 3:
                         (fedq if live else pending).append(d)
-                    elif d["name"] == "pubrel" and live:
+                    elif d["name"] == "pubrel" and live and "id" in d:
                         fedq.append(d)
         if f and f[0] == "damage" and len(f) > 2:
             try:
@@ -559,10 +575,10 @@ def mon_inbound(tr):
                         d = mq.parse(pk)
                     except Exception:
                         continue
-                    if (d["name"] == "publish" and "topic" in d and d["qos"] < 3) or d["name"] == "pubrel":
+                    if (d["name"] == "publish" and "topic" in d and d["qos"] < 3) or (d["name"] == "pubrel" and "id" in d):
                         fedq.append(d)
-            elif l.startswith("ev close "):
-                live, fedq = False, []
+            elif l.startswith("ev close ") or (l.startswith(("ret ", "exch ")) and "netclosed" in l.split()[-1].split("+")):
+                live, fedq = False, []      # (a write that finds the connection closed already closes nothing: no event, same effect)
             elif l.startswith("rs err ") and not (l.split()[2] == "store" and any(x.startswith("ev savefail 1") for x in lines)):
                 live, fedq = False, []      # every other reader error takes the client offline
             if l.startswith("rs msg ") or l.startswith("rs big "):
@@ -570,30 +586,33 @@ def mon_inbound(tr):
                 same = lambda d: d["name"] == "publish" and d["topic"] == topic and \
                     (len(d["payload"]) == int(p[3]) if l.startswith("rs big") else d["payload"] == unhex(p[3]))
                 cands = [d for d in fedq if same(d)]
-                # several fed packets may look alike: prefer the reading under which the client is right
-                benign = [d for d in cands if not (d["qos"] == 2 and (d["id"] in markers or d["id"] in owned))]
-                match = benign[0] if benign else (cands[0] if cands else None)
+                # several fed packets may look alike (a skipped retransmission and a later message with the same topic and size):
+                # prefer the reading under which the client is right - the one the next acknowledgement on the wire speaks of
+                benign = [d for d in cands if not (d["qos"] == 2 and (d.get("id") in markers or d.get("id") in owned))]
+                nxt = next_inbound_ack(tr, i) if len(cands) > 1 else None
+                told = [d for d in benign if nxt and d["qos"] in (1, 2) and ("puback" if d["qos"] == 1 else "pubrec", d.get("id")) == nxt]
+                match = told[0] if told else (benign[0] if benign else (cands[0] if cands else None))
                 if match is not None:
                     k = fedq.index(match)
                     # what the broker sent before it on this connection and was not returned: legitimate only for a retransmission
                     # inside an exactly-once cycle (open now, or ended by a PUBREL further down the stream)
                     for j, d in enumerate(fedq[:k]):
                         if d["name"] == "pubrel":
-                            cycle_open.discard(d["id"])
-                            owned.discard(d["id"])
-                        elif not (d["qos"] == 2 and (d["id"] in cycle_open or d["id"] in markers
-                                                      or any(e["name"] == "pubrel" and e["id"] == d["id"] for e in fedq[j + 1:k]))):
+                            cycle_open.discard(d.get("id"))
+                            owned.discard(d.get("id"))
+                        elif not (d["qos"] == 2 and (d.get("id") in cycle_open or d.get("id") in markers
+                                                      or any(e["name"] == "pubrel" and e.get("id") == d.get("id") for e in fedq[j + 1:k]))):
                             out.append(("inbound:lost", "PUBLISH (QoS %d, identifier %04x, topic %s) sent before a returned message on the same connection was never returned"
                                         % (d["qos"], d.get("id") or 0, d["topic"].hex())))
                     fedq = fedq[k + 1:]
                     took = False
                     if match["qos"] == 1:
-                        owed, owed_op = ("puback", match["id"]), i
+                        owed, owed_op = ("puback", match.get("id")), i
                     elif match["qos"] == 2:
-                        owed, owed_op = ("pubrec", match["id"]), i
-                        if match["id"] in markers or match["id"] in owned:
-                            out.append(("inbound:second-delivery", "exactly-once message %04x returned again within one delivery cycle" % match["id"]))
-                        cycle_open.add(match["id"])
+                        owed, owed_op = ("pubrec", match.get("id")), i
+                        if match.get("id") in markers or match.get("id") in owned:
+                            out.append(("inbound:second-delivery", "exactly-once message %04x returned again within one delivery cycle" % match.get("id")))
+                        cycle_open.add(match.get("id"))
                     else:
                         owed = None
                 else:
@@ -611,15 +630,21 @@ def mon_inbound(tr):
             elif l.startswith("ev w "):
                 for d in w.add(i, p[2], unhex(p[3])):
                     if d["name"] == "pubcomp":
-                        if d["id"] in markers:
+                        # the client answers a PUBREL: retransmissions of that very message which the broker sent right before the PUBREL
+                        # are behind it (they may look like a later message and must not be taken for what a later return hands out)
+                        kk = next((j for j, e in enumerate(fedq) if e["name"] == "pubrel" and e.get("id") == d.get("id")), None)
+                        if kk is not None and all(e["name"] == "publish" and e["qos"] == 2 and e.get("id") == d.get("id") for e in fedq[:kk]):
+                            fedq = fedq[kk + 1:]
+                        if d.get("id") in markers:
                             out.append(("inbound:pubcomp-before-release", "PUBCOMP %04x written while the record of that delivery cycle is still stored: "
-                                        "the next message under this identifier would be taken for a retransmission" % d["id"]))
-                        cycle_open.discard(d["id"])
-                        owned.discard(d["id"])
+                                        "the next message under this identifier would be taken for a retransmission" % d.get("id")))
+                        cycle_open.discard(d.get("id"))
+                        owned.discard(d.get("id"))
                     if d["name"] in ("puback", "pubrec"):
-                        name, pid = d["name"], d["id"]
+                        name, pid = d["name"], d.get("id")
                         if owed == ("?", None):
                             owed = None
+                            acked_here.add((i, pid))
                         elif owed == (name, pid):
                             if owed_op == i and not any(x.startswith("rs msg") or x.startswith("rs big") for x in lines[lines.index(l):]):
                                 pass
@@ -879,6 +904,11 @@ def run_property(ctx, module, profile, n_quick, n_thorough, monitors, keep, leng
                 t2 = parse_trace(i2, cand)
                 return any(s == sig for mon in (monitors + (drain_monitors or [])) for s, _ in mon(t2, cand))
             start = bases.get(id(sc), sc) if is_drain else sc
+            # the sessions are driven through goroutine states, not through time: what a monitor saw in a batch run on a loaded
+            # machine must show again when the script runs alone (twice), or it was an artefact of the quiescence detection
+            if not (fails(start) or fails(start)):
+                stats["hits_not_reproduced"] = stats.get("hits_not_reproduced", 0) + 1
+                continue
             small = shrink(ctx, start, fails) if len(v.violations) < 3 else start
             if is_drain:
                 small = add_drain(ctx, [small])[0][0]
@@ -899,6 +929,11 @@ def run_property(ctx, module, profile, n_quick, n_thorough, monitors, keep, leng
                 def fails2(cand):
                     i2, m2 = sess.run_session(ctx, [cand], shards=1)[0]
                     return (not sess.unsupported(m2)) and C.first_diff(project(i2, keep), project(m2, keep)) is not None
+                if not (fails2(sc) or fails2(sc)):
+                    # the disagreement does not show when the script runs alone: an artefact of the quiescence detection under load
+                    stats["diffs_not_reproduced"] = stats.get("diffs_not_reproduced", 0) + 1
+                    stats["diffs"] -= 1
+                    continue
                 small = shrink(ctx, sc, fails2)
                 i2, m2 = sess.run_session(ctx, [small], shards=1)[0]
                 d2 = C.first_diff(project(i2, keep), project(m2, keep)) or d
